@@ -9,7 +9,10 @@ from pathlib import Path
 
 VERIF = Path(__file__).resolve().parents[1]
 REPO = Path(os.environ.get('HOMONIM_REPO', '/repo'))
-OUT = VERIF / 'coq' / 'gen' / 'CliSurface.v'
+OUT = Path(os.environ.get('CLI_SURFACE_OUT', VERIF / 'coq' / 'gen' / 'CliSurface.v'))
+
+
+sys.path.insert(0, str(VERIF))
 
 
 def coq_list(xs):
@@ -72,22 +75,47 @@ def generate():
         if isinstance(n, ast.Call) and ast.unparse(n.func).endswith('.process') and len(n.args) >= 3:
             kernel_direct = ast.unparse(n.args[2]) == 'kernel_shape'
     out.append(f'Definition kernel_passed_unchanged : bool := {"true" if kernel_direct else "false"}.')
-    # FuseCommand.invoke: unknown configuration keys are rejected, DEFAULT-sourced values are overridden by the file
-    inv = inspect.getsource(hcli.FuseCommand.invoke)
-    out.append(f'Definition conf_unknown_rejected : bool := {"true" if ("not in ctx.params" in inv and "BadParameter" in inv) else "false"}.')
-    inv_ast = ast.parse(inv.lstrip() if inv.startswith(' ') else __import__('textwrap').dedent(inv))
-    only_default = False
-    for n in ast.walk(inv_ast):
-        if isinstance(n, ast.If) and 'ParameterSource.DEFAULT' in ast.unparse(n.test):
-            only_default = ast.unparse(n.test).replace(' ', '') == 'param_src==ParameterSource.DEFAULT'
-    # ... and EVERY entry of the file takes part: the dictionary read from the file is used as it is (no filtering, no defaulting), the loop
-    # runs over all its items, and nothing but the rejection and the source test stands between an entry and ctx.params
-    cd = [ast.unparse(n.value) for n in ast.walk(inv_ast) if isinstance(n, ast.Assign) and ast.unparse(n.targets[0]) == 'config_dict']
-    loops = [n for n in ast.walk(inv_ast) if isinstance(n, ast.For) and ast.unparse(n.iter) == 'config_dict.items()']
-    whole = cd == ['yaml.safe_load(f)'] and len(loops) == 1 and not any(isinstance(n, ast.Continue) for n in ast.walk(loops[0]))
-    ifs_in_loop = [ast.unparse(n.test).replace(' ', '') for n in ast.walk(loops[0]) if isinstance(n, ast.If)] if loops else []
-    whole = whole and sorted(ifs_in_loop) == sorted(['conf_keynotinctx.params', 'param_src==ParameterSource.DEFAULT'])
-    out.append(f'Definition conf_overrides_default_only : bool := {"true" if only_default and whole else "false"}.')
+    # FuseCommand (invoke or a helper it calls): unknown configuration keys are rejected, DEFAULT-sourced values are overridden by the file, and
+    # EVERY entry of the file takes part.  Decided on path conditions (translate/resolve.py), not on spelling: the statement that stores an
+    # entry into <ctx>.params runs exactly when the key is a known parameter and its source is DEFAULT; the rejection exactly when it is not known.
+    import textwrap
+    from translate.resolve import Flow
+    cls = ast.parse(textwrap.dedent(inspect.getsource(hcli.FuseCommand))).body[0]
+    rejected, only_default = False, False
+    for f in [n for n in cls.body if isinstance(n, ast.FunctionDef)]:
+        for loop in [n for n in ast.walk(f) if isinstance(n, ast.For) and isinstance(n.iter, ast.Call) and isinstance(n.iter.func, ast.Attribute)
+                     and n.iter.func.attr == 'items' and isinstance(n.target, ast.Tuple) and len(n.target.elts) == 2]:
+            key, val = (ast.unparse(e) for e in loop.target.elts)
+            stores = [n for n in ast.walk(loop) if isinstance(n, ast.Assign) and isinstance(n.targets[0], ast.Subscript)
+                      and ast.unparse(n.targets[0]).endswith(f'.params[{key}]') and ast.unparse(n.value) == val]
+            if len(stores) != 1:
+                continue
+            fl = Flow(f)
+            C = ast.unparse(stores[0].targets[0].value)[:-len('.params')]
+            if fl.text(loop.iter, loop) != 'yaml.safe_load(f).items()':
+                continue
+
+            def norm(gs):
+                out_ = set()
+                for (t, br) in gs:
+                    if key not in t:
+                        continue          # conditions about something else than the entry (is there a file at all, ...)
+                    t = t.replace(' ', '')
+                    if t.startswith('not(') and t.endswith(')'):
+                        t, br = t[4:-1], not br
+                    if '!=' in t:
+                        t, br = t.replace('!=', '=='), not br
+                    if 'notin' in t:
+                        t, br = t.replace('notin', 'in'), not br
+                    out_.add((t, br))
+                return out_
+            want_known = (f'{key}in{C}.params', True)
+            want_default = (f'{C}.get_parameter_source({key})==ParameterSource.DEFAULT', True)
+            only_default = norm(fl.guards(stores[0], raises=True)) == {want_known, want_default}
+            raises = [n for n in ast.walk(loop) if isinstance(n, ast.Raise) and 'BadParameter' in ast.unparse(n)]
+            rejected = len(raises) == 1 and norm(fl.guards(raises[0], raises=True)) == {(want_known[0], False)}
+    out.append(f'Definition conf_unknown_rejected : bool := {"true" if rejected else "false"}.')
+    out.append(f'Definition conf_overrides_default_only : bool := {"true" if only_default else "false"}.')
     head = ('(* GENERATED by translate/cli_surface.py from the imported homonim.cli of the current working tree - do not edit. *)\n'
             'From Coq Require Import List String Bool.\nImport ListNotations.\nOpen Scope string_scope.\n\n')
     return head + '\n'.join(out) + '\n'
